@@ -1,5 +1,5 @@
 (* extraction of the CSSStyleDeclaration model; directives: ExtrOcamlBasic only
    (bool, option, unit, list, prod, sumbool, sumor -> OCaml natives); N, Z, positive, nat stay Coq datatypes *)
 From Coq Require Import ExtrOcamlBasic.
-From CssV Require Import Base StyleDecl.
-Extraction "styledecl_model.ml" trace_i mk_item_i norm_i toDOM.
+From CssV Require Import Base StyleDecl StyleDeclText.
+Extraction "styledecl_model.ml" trace_i mk_item_i norm_i toDOM settext_of_string_i.
